@@ -26,8 +26,9 @@ META = dict(
                  "collides with a Darr file name (then only the survival of foreign content is compared)"],
 )
 
-PRELUDE = p20.PRELUDE
+PRELUDE = p20.PRELUDE.replace('Check20.', 'Check20 Gen_tables.')
 AFILES = ['arrayvalues.bin', 'arraydescription.json', 'metadata.json', 'README.txt']
+RTOP = ['README.txt', 'arraydescription.json', 'indices', 'metadata.json', 'values']     # RaggedArray._protectedfiles
 
 
 def gen(ctx):
@@ -127,8 +128,13 @@ def run(ctx):
             after = ob['after'] if ob['exists'] else {}
             at = fs_term(after, base, []) if ob['exists'] else "[]"
             if case['func'] == 'delete_array':
-                files = "[" + "; ".join(f'"{x}"' for x in AFILES) + "]"
+                files = "array_protectedfiles"      # GENERATED from Array._protectedfiles
                 terms.append(f"chk_delete {ft} {pterm(bcomps)} {files} true {cbool(writable)} {cz(rc)} {at}")
+                keep.append(key)
+            else:
+                files = "array_protectedfiles"
+                top = "ragged_protectedfiles"       # GENERATED from RaggedArray._protectedfiles
+                terms.append(f"chk_rdelete {ft} {pterm(bcomps)} {top} {files} true {cbool(writable)} {cz(rc)} {at}")
                 keep.append(key)
         ctx.traces += 1
     for case, ob in zip(C, obsC):
